@@ -17,6 +17,7 @@ import (
 func init() {
 	mon.Register(&mon.Check{
 		ID:        "C03",
+		Boost:     3,
 		Batches:   func(tier string) int { return 16 },
 		Run:       runC03,
 		Technique: "reference-model runtime monitor at the socket: raw bytes written by the real server / Client.Send are compared with header||(body XOR reference MD5 pad); cleartext received by a handler / returned by Client.Send is compared with what the reference obfuscated",
